@@ -205,6 +205,7 @@ func (l *Lexer) scanAccount() Token {
 	start := l.pos
 	startPos := l.position()
 	lastNonSpace := start
+	lastNonSpaceColumn := l.column
 
 	for l.pos < len(l.input) {
 		r, size := utf8.DecodeRuneInString(l.input[l.pos:])
@@ -225,10 +226,14 @@ func (l *Lexer) scanAccount() Token {
 		l.pos += size
 		l.column += columnWidth(r)
 		lastNonSpace = l.pos
+		lastNonSpaceColumn = l.column
 	}
 
+	// A single blank before a comment, an operator or the line end has been read as a
+	// possible part of the name; the name, and the token, end before it.
 	value := l.input[start:lastNonSpace]
-	return Token{Type: TokenAccount, Value: value, Pos: startPos, End: l.position()}
+	end := Position{Line: l.line, Column: lastNonSpaceColumn, Offset: lastNonSpace}
+	return Token{Type: TokenAccount, Value: value, Pos: startPos, End: end}
 }
 
 // isAccountTerminator returns true for characters that end account names in hledger format.
